@@ -86,6 +86,20 @@ func runClientCase(ops []clientOp, cliBin string) []clientRes {
 		var r clientRes
 		var err error
 		var val interface{}
+		// a kept handle carries the listen / upstream it was created with and re-sends them: once the proxy was changed or removed
+		// through another route, using the old handle would be the caller's stale data, not the operation's effect - drop it
+		// (the operation then fetches the proxy first)
+		switch {
+		case (op.Op == "retarget" || op.Op == "delete") && op.Via != "kept":
+			delete(handles, op.Name)
+		case op.Op == "cli" && len(op.Args) > 0 && (op.Args[0] == "create" || op.Args[0] == "delete"):
+			delete(handles, op.Args[len(op.Args)-1])
+		case op.Op == "reset":
+			// reset enables every proxy on the server; handles keep their own copy of the flag
+			for k := range handles {
+				delete(handles, k)
+			}
+		}
 		switch op.Op {
 		case "create":
 			var p *tclient.Proxy
